@@ -3559,6 +3559,12 @@ class DataFrame(FrameBase):
         if level is not None:
             raise NotImplementedError("level must be None")
         axis = self._validate_axis(axis)
+        if is_dataframe_like(other) or is_series_like(other) and axis == 0:
+            other = self._create_alignable_frame(other)
+        if isinstance(other, FrameBase) and not expr.are_co_aligned(
+            self.expr, other.expr
+        ):
+            return new_collection(expr.ComparisonAlign(self, other, expr_cls, axis))
         return new_collection(expr_cls(self, other, axis))
 
     def lt(self, other, level=None, axis=0):
@@ -4032,6 +4038,14 @@ class Series(FrameBase):
         if level is not None:
             raise NotImplementedError("level must be None")
         self._validate_axis(axis)
+        if is_series_like(other):
+            other = self._create_alignable_frame(other)
+        if isinstance(other, FrameBase) and not expr.are_co_aligned(
+            self.expr, other.expr
+        ):
+            return new_collection(
+                expr.ComparisonAlign(self, other, expr_cls, level, fill_value)
+            )
         return new_collection(expr_cls(self, other, fill_value=fill_value))
 
     def lt(self, other, level=None, fill_value=None, axis=0):
